@@ -423,6 +423,26 @@ fn run_c27(tier: &str, seed: u64) -> i32 {
         }
     }
     let mut shuttle_blocked = false;
+    // real std threads (no shuttle), always: cheap, and the only scheduler that can run code which
+    // blocks in a non-shuttle lock
+    let mut probes_ok = 0u64;
+    if hung.is_empty() {
+        for kind in ["reentrant", "concurrent"] {
+            match child(&["c27-probe".into(), kind.into(), seed.to_string()], 300) {
+                None => {
+                    let path = dir.join(format!("C27-{seed}-hang-{kind}.json"));
+                    simcore::write_json(&path, &json!({"property": "C27", "key": format!("no-hang|{kind}-parse-deadlocks"), "probe": kind, "seed": seed}));
+                    report(format!("no-hang|{kind}-parse-deadlocks"), format!("real std threads: the {kind} probe did not finish within 300 s"), path.display().to_string(), &mut unlisted, &mut known);
+                }
+                Some((code, out)) if code != 0 => {
+                    let path = dir.join(format!("C27-{seed}-probe-{kind}.json"));
+                    simcore::write_json(&path, &json!({"property": "C27", "key": format!("equals-fresh-sequential|real-threads-{kind}"), "probe": kind, "seed": seed}));
+                    report(format!("equals-fresh-sequential|real-threads-{kind}"), out.lines().last().unwrap_or("").to_string(), path.display().to_string(), &mut unlisted, &mut known);
+                }
+                Some(_) => probes_ok += 1,
+            }
+        }
+    }
     if !hung.is_empty() {
         // a batch did not finish: genuine deadlock, or a lock held across a scheduling point (which
         // shuttle, modelling only its own primitives, cannot schedule around)?  Ask real threads.
@@ -455,6 +475,7 @@ fn run_c27(tier: &str, seed: u64) -> i32 {
     extra.insert("context_switches_observed".to_string(), json!(switches));
     extra.insert("reentrant_cases".to_string(), json!(reentrant_cases));
     extra.insert("batches_cut_off_by_watchdog".to_string(), json!(hung.len()));
+    extra.insert("real_thread_probes_passed".to_string(), json!(probes_ok));
     extra.insert("shuttle_blocked_by_foreign_lock".to_string(), json!(shuttle_blocked));
     extra.insert("fault_kinds_fired".to_string(), json!({"preemption_at_token_pull_or_action": switches, "reentrant_parse_from_action": "every fifth case"}));
     extra.insert("runs_per_hour".to_string(), json!((execs as f64 / wall * 3600.0) as u64));
